@@ -116,7 +116,7 @@ def helper_pass_edges(ctx, body, g):
         oks = hb.ok_exits()
         if bl and oks and hb.unreachable_without(oks, e)[0]:
             edges += [(sb, p) for p in ps]
-            names.append(callee.rsplit("::", 1)[1])
+            names.append(callee.rsplit("::", 1)[-1])
     return edges, names
 
 
@@ -264,7 +264,7 @@ def G_not_less(a_pred, b_pred, label):
                 continue
             for at in si["atoms"]:
                 if at.kind == "call" and re.search(r"::(lt|gt|le|ge)$", at.what) and "PartialOrd" in (at.what + at.extra["fd"]):
-                    op, ops = at.what.rsplit("::", 1)[1], at.extra["args"][:2]
+                    op, ops = at.what.rsplit("::", 1)[-1], at.extra["args"][:2]
                 elif at.kind == "bin" and at.what in ("Lt", "Gt", "Le", "Ge"):
                     op, ops = at.what.lower(), [at.extra["a"], at.extra["b"]]
                 else:
